@@ -152,6 +152,39 @@ func (h *streamHarness) op(f []string) string {
 	if h.poisoned && f[0] != "reset" {
 		return "poisoned"
 	}
+	if f[0] == "burst" {
+		// burst <op> ; <op> ; ... : writer ops back to back, readers get no chance to settle in
+		// between (best effort: one P, so a woken reader only runs when the writer blocks)
+		old := runtime.GOMAXPROCS(1)
+		var rs []string
+		var cur []string
+		flush := func() {
+			if len(cur) > 0 {
+				rs = append(rs, h.op1(cur))
+				cur = nil
+			}
+		}
+		for _, w := range f[1:] {
+			if w == ";" {
+				flush()
+			} else {
+				cur = append(cur, w)
+			}
+		}
+		flush()
+		runtime.GOMAXPROCS(old)
+		res := strings.Join(rs, ",")
+		if !h.settle() {
+			res += " unsettled"
+		}
+		for _, r := range h.readers {
+			if r.done && r.result == "panic" && !h.poisoned {
+				h.poisoned = true
+				res += " reader-panic"
+			}
+		}
+		return res
+	}
 	res := h.op1(f)
 	if f[0] == "add" || f[0] == "cancel" || f[0] == "del" {
 		if !h.settle() {
